@@ -246,8 +246,8 @@ def _interp(reactor):
 def parts(tier):
     from vlib.harness import hyp_part
     return [
-        hyp_part("twisted", s_workload("twisted"), _interp("twisted"), tier, quick=70, thorough=1000,
+        hyp_part("twisted", s_workload("twisted"), _interp("twisted"), tier, quick=45, thorough=600,
                  quick_shards=3, thorough_shards=8),
-        hyp_part("asyncio", s_workload("asyncio"), _interp("asyncio"), tier, quick=70, thorough=1000,
+        hyp_part("asyncio", s_workload("asyncio"), _interp("asyncio"), tier, quick=45, thorough=600,
                  quick_shards=3, thorough_shards=8),
     ]
